@@ -24,7 +24,9 @@ TRUSTED = [
 ]
 ASSUMPTIONS = ['file names are fresh (16 random bytes)', 'POSIX (os.linesep == "\\n")',
                'overlapping stores: the model store/fetch is a function of one value; that two stores through one shared Disk object do not '
-               'interfere is checked by the overlapping_stores monitor only (threads and re-entrant pickling hooks), not proved']
+               'interfere is checked by the overlapping_stores monitor only (threads and re-entrant pickling hooks), not proved',
+               'counters: that the number incr / decr returns is the value stored from then on (or the call raises and the previous number stays) is decided by '
+               'the counters monitor only; the model store/fetch has no read-modify-write entry point']
 
 BIG = 2 ** 15
 
@@ -1120,6 +1122,154 @@ def retry_after_contention(ctx, res, stats):
     stats['retry_contention_cases'] = n
 
 
+# ---------------------------------------------------------------------------------------------------------------
+# incr / decr are storing entry points too: the number they return is the value stored from then on.  Counters are walked ACROSS the
+# boundaries of the number representations (signed 32 / 53 / 64 bit), in both directions, by small steps and by jumps.
+
+COUNTER_CONTAINERS = ['Cache', 'FanoutCache', 'DjangoCache']
+COUNTER_SUBCONTAINERS = ['FanoutCache.cache', 'DjangoCache.cache']
+
+
+def counter_walks():
+    """-> list of (start, [delta, ...]); a positive delta is applied with incr, a negative one alternately with decr(-delta) and incr(delta)"""
+    walks = []
+    for bits in (31, 53, 63):
+        top, bottom = 2 ** bits - 1, -2 ** bits           # the largest / smallest number of that width
+        walks.append((top - 2, [1, 1, 1, 1, 1, -1, -1, -1, -1]))          # up across the edge one by one, and back
+        walks.append((bottom + 2, [-1, -1, -1, -1, -1, 1, 1, 1, 1]))      # down across the edge, and back
+        walks.append((top, [1, -1, 2, -3]))
+        walks.append((bottom, [-1, 1, -2, 3]))
+        walks.append((0, [top, 1, -1, -top, bottom, -1, 1]))             # jumps from zero onto the edge, then over it
+    walks.append((5, [2 ** 64, -2 ** 64, -2 ** 64, 2 ** 64]))
+    walks.append((-7, [2 ** 63, 2 ** 63, -2 ** 65, 10 ** 30]))
+    walks.append((2 ** 62, [2 ** 62, -2 ** 62, -2 ** 63, -2 ** 62, -1]))
+    return walks
+
+
+def _counter_api(container):
+    """-> (table of readers, create(o, k, start, how), step(o, k, d, use_decr))"""
+    dj = container == 'DjangoCache'
+    if dj:
+        def step(o, k, d, use_decr):
+            return o.decr(k, -d, version=None) if use_decr else o.incr(k, d, version=None)
+    else:
+        def step(o, k, d, use_decr):
+            return o.decr(k, -d, default=None) if use_decr else o.incr(k, d, default=None)
+
+    def create(o, k, start, how):
+        if how == 'set':
+            return o.set(k, start)
+        if how == 'add':
+            return o.add(k, start)
+        if how == 'incr':                     # the insert path of incr: default + delta
+            return o.incr(k, start - 3, default=3)
+        return o.decr(k, 3 - start, default=3)
+    return create, step
+
+
+def counter_walk(o, table, container, start, deltas, how, key):
+    """One counter: created with value `start`, then stepped by `deltas`.  After the creation and after every step EVERY non-destructive
+    accessor must return the current number -- the one the last call that RETURNED reported, or the previous one when the call raised --
+    as an int; the walk ends with a removing accessor.  -> (problems [(sig, desc, step index, reader)], outcomes per step)"""
+    t = EP_TABLE[table]
+    create, step = _counter_api(container)
+    op = {'version': None}
+    problems, outcomes = [], []
+
+    def look(cur, i, what, destructive_name=None):
+        for name, f, destructive in t['readers']:
+            if destructive != (destructive_name is not None) or (destructive and name != destructive_name) or name in EP_COSTLY:
+                continue
+            try:
+                got = f(o, key, op)
+                ok = same_exact(got, cur)
+            except Exception as e:  # noqa
+                got, ok = ('<raised>', type(e).__name__, str(e)[:80]), False
+            if not ok:
+                problems.append(('counter_altered:%s' % what, '%s counter %s: after %s, %s returned %s (%s), the counter stands at %d'
+                                 % (container, key, what_text(i), name, short(got), type(got).__name__, cur), i, name))
+                return False
+        return True
+
+    def what_text(i):
+        if i < 0:
+            return 'creation with %d by %s' % (start, how)
+        d = deltas[i]
+        return 'step %d (%+d, which %s)' % (i, d, outcomes[i])
+
+    try:
+        create(o, key, start, how)
+    except Exception as e:  # noqa -- a start value the container cannot hold: rejected, nothing may be there
+        if not t['absent'](o, key, op):
+            problems.append(('rejected_but_stored', 'creating the counter raised %r but the key exists' % e, -1, 'contains'))
+            t['remove'](o, key, op)
+        return problems, ['create-raised:' + type(e).__name__]
+    cur = start
+    if not look(cur, -1, 'create:' + how):
+        t['remove'](o, key, op)
+        return problems, outcomes
+    ndecr = 0
+    for i, d in enumerate(deltas):
+        use_decr = False
+        if d < 0:
+            ndecr += 1
+            use_decr = bool(ndecr % 2)
+        try:
+            r = step(o, key, d, use_decr)
+        except Exception as e:  # noqa -- rejected: the entry is unchanged
+            outcomes.append('raised ' + type(e).__name__)
+            what = ('decr' if use_decr else 'incr') + '_raised'
+        else:
+            outcomes.append('returned %s' % short(r))
+            what = 'decr' if use_decr else 'incr'
+            if not same_exact(r, cur + d):
+                problems.append(('counter_wrong_result:' + what, '%s counter %s at %d: %s by %d returned %s (%s)'
+                                 % (container, key, cur, what, abs(d), short(r), type(r).__name__), i, 'result'))
+                break
+            cur = cur + d
+        if not look(cur, i, what):
+            break
+    else:
+        names = [n for n, _, destructive in t['readers'] if destructive]
+        look(cur, len(deltas) - 1, 'removal', names[(len(deltas) + abs(start)) % len(names)])
+    try:
+        t['remove'](o, key, op)
+    except Exception:  # noqa
+        pass
+    return problems, outcomes
+
+
+def counters(ctx, res, stats, thorough):
+    """incr / decr as storing entry points (Cache, FanoutCache, DjangoCache and the Cache a FanoutCache / DjangoCache hands out; thresholds 0 / 8 /
+    32 KiB): whatever number a counter call returns is what every accessor returns afterwards, with type int; a call that raises leaves the
+    previous number.  Counters are created by set / add / incr / decr and walked across +-2^31, +-2^53, +-2^63 and beyond."""
+    st = stats.setdefault('counters', {'walks': 0, 'steps': 0, 'steps_rejected': {}})
+    plan = [(c, m) for m in (0, 8, BIG) for c in COUNTER_CONTAINERS] + [(c, BIG) for c in COUNTER_SUBCONTAINERS]
+    hows = ['set', 'incr', 'add', 'decr']
+    n = 0
+    for ci, (container, m) in enumerate(plan):
+        o, tables, close = ep_make(ctx.scratch, container, m, pickle.HIGHEST_PROTOCOL)
+        try:
+            for wi, (start, deltas) in enumerate(counter_walks()):
+                for how in hows:
+                    n += 1
+                    problems, outcomes = counter_walk(o, tables[0], container, start, deltas, how, 'ctr%d' % n)
+                    st['walks'] += 1
+                    st['steps'] += len(outcomes)
+                    for oc in outcomes:
+                        if oc.startswith('raised') or oc.startswith('create-raised'):
+                            st['steps_rejected'][oc] = st['steps_rejected'].get(oc, 0) + 1
+                    res.count(['counter', container, m, str(start), [str(d) for d in deltas], how], nontrivial=True)
+                    for sig, desc, i, reader in problems:
+                        res.violations.append(fw.Violation(sig, desc, {
+                            'check': 'counter', 'container': container, 'min_file_size': m, 'start': str(start), 'deltas': [str(d) for d in deltas],
+                            'created_by': how, 'step_index': i, 'reader': reader, 'outcomes': outcomes}))
+        finally:
+            close()
+    res.sample({'check': 'counters', 'containers': COUNTER_CONTAINERS + COUNTER_SUBCONTAINERS, 'walks': st['walks'], 'steps': st['steps'],
+                'rejected': st['steps_rejected']})
+
+
 def witnesses(res):
     """Replay the witnesses of the findings listed for C01 on the implementation."""
     import tempfile, shutil
@@ -1165,7 +1315,10 @@ def run(ctx, big_budget=False):
                 'min_file_size {8,32768} (thorough: also 0), then EVERY accessor of that container with and without its optional parameters (get, '
                 'get(read=True), get(expire_time, tag), [], read, pop, peekitem, peek / pull at both ends, get_many, get_or_set, incr_version; Index get / '
                 'values / items / setdefault / popitem; Deque [0] / [-1] / peek(left) / iter / reversed / copy / rotate / reverse / pop(left)): an equal '
-                'value of the same type, or the store raised and nothing is there.')
+                'value of the same type, or the store raised and nothing is there.  Counters: incr / decr are storing entry points whose RESULT is the stored '
+                'value: counters of Cache / FanoutCache / DjangoCache (and of the Cache those hand out), thresholds {0,8,32768}, created by set / add / incr / '
+                'decr, walked one by one and by jumps across +-2^31, +-2^53, +-2^63 and up to 2^65 / 10^30 in both directions; after every call every '
+                'accessor returns, as an int, the number the call returned, or the previous number when the call raised.')
     import time as _t
     t0 = _t.time()
     stats = {'rejected': {}, 'kinds': {}, 'file_backed': 0, 'accessor_calls': 0}
@@ -1196,6 +1349,10 @@ def run(ctx, big_budget=False):
     res.extra['timing']['entry_points_s'] = round(_t.time() - t2, 1)
     res.extra['entry_points'] = stats.get('entry_points')
     t2 = _t.time()
+    counters(ctx, res, stats, thorough)
+    res.extra['timing']['counters_s'] = round(_t.time() - t2, 1)
+    res.extra['counters'] = stats.get('counters')
+    t2 = _t.time()
     overlapping_stores(ctx, res, stats, thorough)
     res.extra['timing']['overlapping_stores_s'] = round(_t.time() - t2, 1)
     res.extra['overlapping_stores'] = stats.get('overlapping_stores')
@@ -1224,6 +1381,18 @@ def replay(payload):
             return not problems
         finally:
             env.close()
+            shutil.rmtree(d, ignore_errors=True)
+    if case.get('check') == 'counter':
+        d = tempfile.mkdtemp(prefix='c01r-')
+        o, tables, close = ep_make(lambda name: tempfile.mkdtemp(prefix=name + '-', dir=d), case['container'], case['min_file_size'], pickle.HIGHEST_PROTOCOL)
+        try:
+            problems, outcomes = counter_walk(o, tables[0], case['container'], int(case['start']), [int(x) for x in case['deltas']], case['created_by'], 'r')
+            print('counter from %s by %s: %s' % (case['start'], case['created_by'], list(zip(case['deltas'], outcomes))))
+            for sig, desc, i, reader in problems:
+                print(sig, desc)
+            return not problems
+        finally:
+            close()
             shutil.rmtree(d, ignore_errors=True)
     if case.get('check') == 'entry_point':
         d = tempfile.mkdtemp(prefix='c01r-')
